@@ -212,6 +212,11 @@ def _det_specs():
         "kge_excl": lambda o, s: metrics.kge(o, s, excludenull=True),
         "abs_peak_err": lambda o, s: metrics.absolute_peak_error(
             o, s, winerase=3),
+        "abs_peak_err_options": lambda o, s: metrics.absolute_peak_error(
+            o, s, winerase=2, winpeakbefore=1, winpeakafter=2, neventmax=3),
+        "rel_perc_err_modified": lambda o, s:
+            metrics.relative_percentile_error(o, s, [20, 80], eps=0.1,
+                                              modified=True, neval=7),
         "rel_perc_err": lambda o, s: metrics.relative_percentile_error(
             o, s, [10, 90]),
         "confusion": lambda o, s: metrics.confusion_matrix(
@@ -520,6 +525,35 @@ def _(d):
 @spec("signatures.eckhardt", "dutils")
 def _(d):
     return [d.V(np.abs(d.obs) + 1, containers=ND)], signatures.eckhardt
+
+
+# ---- the same functions with their rarely used options
+@spec("signatures.eckhardt_options", "dutils")
+def _(d):
+    return [d.V(np.abs(d.obs) + 1, containers=ND)], \
+        lambda x: signatures.eckhardt(x, thresh=0.9, tau=5, BFI_max=0.5,
+                                      timestep_type=0)
+
+
+@spec("signatures.fdcslope_options", "dutils")
+def _(d):
+    return [d.V(np.abs(d.obs) + 1, containers=("ndarray", "series"),
+                dtypes=FL)], \
+        lambda x: signatures.fdcslope(x, q1=20, q2=70, cst=0.3,
+                                      trans=transform.Log())
+
+
+@spec("dutils.lag_missing", "dutils")
+def _(d):
+    return [d.V(d.obs, containers=ND)], \
+        lambda x: dutils.lag(x, 3, missing=-999.)
+
+
+@spec("dutils.water_year_end_window", "dutils")
+def _(d):
+    v = np.tile(np.abs(d.obs) + 1, 800 // d.n + 1)[:800]
+    return [pd.Series(v, index=pd.date_range("2001-03-01", periods=800))], \
+        lambda s: dutils.water_year_end(s, convolve_window=5)
 
 
 @spec("signatures.fdcslope", "dutils")
